@@ -160,6 +160,9 @@ func cmdCheck(args []string) int {
 		funcs = append(funcs, fmt.Sprintf("%s (%s mode)", fx.key, fx.mode))
 		for n := range fx.notes {
 			notes[fx.key+": "+n] = true
+			if *verbose && strings.HasPrefix(n, "uncontracted callee") {
+				fmt.Printf("note: %s: %s\n", fx.key, n)
+			}
 		}
 		for ufc := range fx.usedFC {
 			usedFC[ufc] = true
